@@ -37,7 +37,7 @@ RULE = ("a scenario = one callee/caller pair (transport and serializer chosen pe
         "exception classes (11 constructor kinds: plain, *a/**kw, arity 0, arity 2, keyword-only, value-checking, raising "
         "with 5 exception types, falsy instance, formatting, ApplicationError subclass, fixed-URI ApplicationError subclass; "
         "@wamp.error-decorated + define(cls), define(cls, uri), decorated but not define()d, undefined, subclass of a "
-        "registered class, decorated subclass of a decorated class) registered at both sides / callee only / caller only / "
+        "registered class, define()d subclass of a define()d class, decorated subclass of a decorated class) registered at both sides / callee only / caller only / "
         "different classes per side under URIs that are prefixes, extensions and truncations of each other + 6-10 calls "
         "whose endpoint raises synchronously, from an inlineCallbacks/async-def body, or rejects a pending future later in "
         "shuffled order: instances of the generated classes, ApplicationError with arbitrary (loose) URIs incl. neighbours "
@@ -51,7 +51,7 @@ ASSUMPTIONS = [
     "keyword names reserved by ApplicationError/CallResult (enc_algo, callee, callee_authid, callee_authrole, forward_for) are never used; with traceback_app the name `traceback` is not used by the workload and kwargs may gain exactly that key",
     "admitted normalisations: tuple == list, absent args/kwargs == empty, -0.0 == 0.0; JSON: no strings starting with U+0000, no NaN/inf/subnormal floats",
     "classes are registered under URIs uri.Pattern accepts ([a-z0-9][a-z0-9_-]* components or <name>); define() is never called against its contract (decorated class with explicit URI, undecorated without); at most one class per URI and side",
-    "grey zones accepted both ways: a decorated but not define()d class (registered URI or runtime_error), an unregistered subclass of a registered class (runtime_error or the ancestor's URI), an ApplicationError subclass that is also define()d (carried or registered URI), presence of `traceback` when traceback_app is on",
+    "grey zones accepted both ways: a decorated but not define()d class, also by inheritance of the decoration (decorated URI or runtime_error), an ApplicationError subclass that is also define()d (carried or registered URI), presence of `traceback` when traceback_app is on; an undecorated, not define()d subclass of a define()d class is an unregistered class (runtime_error)",
     "every session starts with the library's own registrations wamp.error.invalid_payload -> SerializationError and wamp.error.payload_size_exceeded -> PayloadExceededError (taken from the documentation of those classes, restated in the oracle)",
     "'the constructor accepts the payload' is decided by the oracle calling cls(*args, **kwargs) itself with the forwarded payload; constructors are deterministic",
     "the stub's plain codecs (json, msgpack, cbor2, bjdata) are trusted to show what was on the wire",
@@ -213,7 +213,14 @@ def gen_scenario(rng, cfg):
                        and any(d[1] == i and d[0] == "callee" for d in defines)]
             if parents:
                 p = rng.choice(parents)
-                new_class(classes[p]["kind"], base=p)
+                ci = new_class(classes[p]["kind"], base=p)
+                free = [x for x in L.REG_URI_POOL if x not in uris and not any(c["deco"] == x for c in classes)]
+                if free and rng.random() < 0.6:
+                    # ... or is: a define()d subclass of a define()d class, each under its own URI
+                    u = rng.choice(free)
+                    uris.append(u)
+                    for sd in rng.choice([["callee", "caller"], ["callee"], ["callee"]]):
+                        register(ci, sd, u)
     # a decorated subclass of a decorated class, each with its own URI
     if rng.random() < 0.3:
         # (the parent's URI is used by no other class, so that what is observed classifies unambiguously)
@@ -367,10 +374,8 @@ def expected_wire_uris(src, exc, callee_reg, class_specs):
         cat = "decorated-not-defined"
     for a in _ancestors(ci, class_specs):
         cat = "unregistered-subclass" if cat == "unregistered" else cat
-        if class_specs[a]["deco"]:
+        if class_specs[a]["deco"]:          # the decoration is inherited: grey
             s.add(class_specs[a]["deco"])
-        if a in callee_reg.cls_uri:
-            s.add(callee_reg.cls_uri[a])
     return s, cat
 
 
